@@ -83,6 +83,32 @@ fn build(tier: Tier) -> Vec<Scenario> {
             }
         }
     }
+    // explicit replication changes on wider layouts (fewer consumer replicas than producers)
+    let repl_progs: Vec<Program> = vec![
+        vec![ReplLim2, Map],
+        vec![Map, ReplLim2, Shuffle],
+        vec![ReplLim2, GbSum],
+        vec![Shuffle, ReplLim2, Fold],
+        vec![ReplOne, Map],
+        vec![ReplHost, Map, Shuffle],
+        vec![Dup, ReplLim2, Swap, ReplLim2, Merge],
+    ];
+    for p in [3u64, 4] {
+        let cfg = JobCfg { layout: Layout::Local(p), batch: BatchMode::fixed(1), capacity: 0 };
+        let src = SrcKind::Par((0..6).map(|i| i % p as usize).collect());
+        for prog in &repl_progs {
+            out.push(program_scenario(
+                "C01/repl",
+                prog,
+                &[1, 2, 3, 4, 5, 6],
+                src.clone(),
+                &cfg,
+                if tier == Tier::Quick { 0 } else { 1 },
+                &ORDERS3,
+                "repl-limited:".to_string(),
+            ));
+        }
+    }
     out
 }
 
